@@ -99,7 +99,7 @@ def gen_module(rnd):
                 f.byte_order = rnd.choice(["LittleEndian", "BigEndian"])
             if t.kind in ("UInt", "Int") and rnd.random() < 0.2:
                 f.requires = ("op", rnd.choice(["<", "<=", "!=", ">="]), ("r", ("this",)), ("n", rnd.choice([0, 1, 10, 100, 200])))
-            if t.kind in ("UInt", "Int") and f.requires is None and cond is None:
+            if t.kind in ("UInt", "Int") and cond is None:
                 ints.append((f.name, t.kind, t.bits))
             size = nb
         elif k < 0.75:
@@ -118,6 +118,11 @@ def gen_module(rnd):
                 f.inline = target
             if f.inline is None and nb > 1 and rnd.random() < 0.3:
                 f.byte_order = rnd.choice(["LittleEndian", "BigEndian"])
+            if f.anon and cond is None:
+                # members of an anonymous bits are reached through the alias the compiler adds for them
+                for g in f.anon:
+                    if g.typ.kind in ("UInt", "Int") and g.typ.bits <= 32:
+                        ints.append((g.name, g.typ.kind, g.typ.bits))
             size = nb
         else:
             t = M.Type("struct", name="Sub")
@@ -151,6 +156,9 @@ def gen_module(rnd):
         if rnd.random() < 0.2:
             v.requires = ("op", rnd.choice(["<", "!=", ">="]), ("r", ("this",)), ("n", rnd.choice([0, 3, 10, 50])))
         st.fields.append(v)
+        if rnd.random() < 0.5 and not (k < 0.4 and k >= 0.3):
+            # later virtual fields may be built on this one: the write then goes through a chain
+            ints.append((name, "virtual", 32))
     m.types.append(st)
     for t in m.types:
         semgen.set_parents(t, None)
@@ -286,6 +294,14 @@ def ref_write(I, foo, buf, path, v):
         if f.requires is not None and view.ev(f.requires, this=v) is not True:
             could = False
         inv = invert(view, f.value, v)
+        # a chain of virtual fields: each link's own [requires] applies to the value it would take
+        hops = 0
+        while inv is not None and len(inv[0]) == 1 and inv[0][0] in view.members() and view.members()[inv[0][0]][0].is_virtual and hops < 8:
+            link = view.members()[inv[0][0]][0]
+            if link.requires is not None and view.ev(link.requires, this=inv[1]) is not True:
+                could = False
+            inv = invert(view, link.value, inv[1])
+            hops += 1
         dest = None
         if inv is None:
             could = False
